@@ -8,6 +8,9 @@
    sequential composition "teardown, then the call".  (The harness delivers the call from inside
    the removal cascade; for calls that do not commute with the teardown - a call that depends on
    entries of p - other linearisations are legitimate too; those are not generated.)
+   The same operation covers a DELETE call of p as [a]: RemoveSubscription / RemoveBinding hold the
+   registry mutex from reading the entries to storing the filtered list; a call of q that arrives
+   in between waits and is applied to the stored list - again "a, then b".
    Anything else written as [During a b] (a not a teardown, b not a registry call, same peer)
    does nothing.  No proofs here. *)
 From Verif Require Import Base.Prelude Model.Stack Model.StackWire.
@@ -17,6 +20,9 @@ Inductive xop := Base (o : op) | During (a b : op).
 Definition td_peer (a : op) : option N :=
   match a with
   | Disconnect p | DiscoveryNotify p _ _ _ | DiscoveryReply p _ => Some p
+  (* a delete call of p parked inside the registry's critical section (between the filter and the
+     store of RemoveSubscription / RemoveBinding) while q's call arrives: q waits for the mutex *)
+  | SubDelete p _ _ _ | BindDelete p _ _ _ => Some p
   | _ => None
   end.
 
